@@ -11,6 +11,11 @@ VERIF = os.path.dirname(HERE)
 props = [json.loads(l) for l in open(os.path.join(VERIF, 'properties.jsonl'))]
 not_claimed = json.load(open(os.path.join(HERE, 'not_claimed.json')))
 meta = json.load(open(os.path.join(HERE, 'claims.json')))
+cd = os.path.join(HERE, 'claims')
+if os.path.isdir(cd):
+    for fn in sorted(os.listdir(cd)):
+        if fn.endswith('.json'):
+            meta[fn[:-5]] = json.load(open(os.path.join(cd, fn)))
 
 checks, na = [], []
 for p in props:
